@@ -29,7 +29,7 @@ ASSUMPTIONS = [
     'float32 rounding once = numpy astype(float32) of the float64 value converted by scipp to the declared unit',
     'clock frozen',
 ]
-REQUIRED_CLASSES = ['all_rows_float32', 'non_ascii_strings', 'experiments_reused_ok', 'beyond_float32_range', 'pixels_equal', 'units_converted', 'indirect', 'direct', 'en2d', 'deg_input', 'reader_ok', 'multi_chunk', 'empty_string']
+REQUIRED_CLASSES = ['masked_pixel_data', 'experiments_in_real_file', 'all_rows_float32', 'non_ascii_strings', 'experiments_reused_ok', 'beyond_float32_range', 'pixels_equal', 'units_converted', 'indirect', 'direct', 'en2d', 'deg_input', 'reader_ok', 'multi_chunk', 'empty_string']
 BOUND = {
     'quick': 'pixels 0..20000, chunk 1..100000, 3 unit sets; runs 1/2/20; both modes',
     'thorough': 'same plus 100000 pixels',
@@ -86,6 +86,18 @@ def cases(tier):
                                     if runs == 20 and (strings != 'plain' or eu == 'ueV'):
                                         continue
                                     out.append({'kind': 'experiments', 'runs': runs, 'mode': mode, 'en2d': en2d, 'efix_array': efix_array, 'angle_unit': au, 'energy_unit': eu, 'strings': strings, 'byteorder': bo})
+    # pixel data that carries masks (scipp data arrays often do): the statement says all N pixels and their extremes are
+    # written; masks on the extreme pixels, on the last pixels, on all pixels; chunk sizes around the unmasked count
+    for mask in ('extremes', 'tail', 'head', 'all', 'none_true', 'two_masks'):
+        for n, ch in ((12, 1), (12, 4), (12, 5), (12, 12), (12, 8192), (13, 3), (1, 1)):
+            for bo, sink in (('little', 'bytes'), ('big', 'path')):
+                out.append({'kind': 'pixels', 'n_pixels': n, 'chunk': ch, 'units': 'default', 'byteorder': bo, 'sink': sink, 'mask': mask})
+    # run records written to a real file (the builder knows a path then) and to memory, with plain and empty strings
+    for strings in ('plain', 'empty', 'nonascii'):
+        for sink in ('path', 'path_existing'):
+            for mode in ('direct', 'indirect'):
+                for bo in ('little', 'big'):
+                    out.append({'kind': 'experiments', 'runs': 2, 'mode': mode, 'en2d': False, 'efix_array': False, 'angle_unit': 'rad', 'energy_unit': 'meV', 'strings': strings, 'byteorder': bo, 'sink': sink})
     shapes = [(2, 2, 2, 2), (1, 1, 1, 1), (3, 1, 4, 2), (40, 50, 4, 3)]
     for shape in shapes:
         for qu in ('1/angstrom', '1/nm', '10/angstrom'):
@@ -124,6 +136,25 @@ def run_pixels(case, rec):
     da = sq.pixel_data(n, case['units'], case.get('dtype', 'float64'), case.get('index_dtype', 'int64'))
     if case.get('dtype') == 'float32' and case.get('index_dtype') == 'float32':
         rec.cls('all_rows_float32')
+    if case.get('mask'):
+        m = np.zeros(n, dtype=bool)
+        how = case['mask']
+        sig = da.values
+        if how == 'extremes' and n:
+            m[[int(np.argmax(sig)), int(np.argmin(sig)), int(np.argmax(da.variances)), int(np.argmax(da.coords['u4'].values))]] = True
+        elif how == 'tail':
+            m[n - max(1, n // 4):] = True
+        elif how == 'head':
+            m[: max(1, n // 4)] = True
+        elif how == 'all':
+            m[:] = True
+        da.masks['bad'] = sc.array(dims=['obs'], values=m)
+        if how == 'two_masks':
+            m2 = np.zeros(n, dtype=bool)
+            m2[::3] = True
+            da.masks['bad'] = sc.array(dims=['obs'], values=m2)
+            da.masks['worse'] = sc.array(dims=['obs'], values=np.roll(m2, 1))
+        rec.cls('masked_pixel_data')
     want = sq.expected_pixel_rows(da)
     snap = da.copy(deep=True)
     with warnings.catch_warnings():
@@ -215,7 +246,7 @@ def run_experiments(case, rec):
     for r, rid in enumerate(ids):
         fn, fp = _strings(case['strings'], r)
         exps.append(sq.experiment(run_id=rid, mode=case['mode'], angle_unit=case['angle_unit'], energy_unit=case['energy_unit'], en2d=case['en2d'], efix_array=case['efix_array'], filename=fn, filepath=fp))
-    data, _ = sq.write_file(('inst', 'pix', 'samp'), byteorder=case['byteorder'], sink='bytes', n_pixels=5, experiments=exps, title='Titel \u00fc\u4e2d' if case['strings'] == 'nonascii' else 'T')
+    data, _ = sq.write_file(('inst', 'pix', 'samp'), byteorder=case['byteorder'], sink=case.get('sink', 'bytes'), n_pixels=5, experiments=exps, title='Titel \u00fc\u4e2d' if case['strings'] == 'nonascii' else 'T')
     rec.transitions += 1
     site = 'SqwBuilder.create'
     try:
@@ -232,6 +263,8 @@ def run_experiments(case, rec):
         rec.cls('empty_string')
     if case['strings'] == 'nonascii':
         rec.cls('non_ascii_strings')
+    if case.get('sink', 'bytes') != 'bytes':
+        rec.cls('experiments_in_real_file')
     mh = sqwdec.struct_of(dec['blocks'][('', 'main_header')])
     if sqwdec.scalar(mh['nfiles']) != float(runs):
         rec.viol(site, 'nfiles', f'main header nfiles {sqwdec.scalar(mh["nfiles"])}, expected {runs}')
